@@ -126,6 +126,10 @@ fn render_point(p: &Value) -> (String, String, Vec<String>) {
                 "lower" => (format!("Mvr ::= INTEGER ({vname}..20)"), "Mvr ::= INTEGER (9..20)".to_string()),
                 "single" => (format!("Mvr ::= INTEGER ({vname})"), "Mvr ::= INTEGER (9)".to_string()),
                 "size" => (format!("Mvr ::= OCTET STRING (SIZE (1..{vname}))"), "Mvr ::= OCTET STRING (SIZE (1..9))".to_string()),
+                "upper_min" => (format!("Mvr ::= INTEGER (MIN..{vname})"), "Mvr ::= INTEGER (MIN..9)".to_string()),
+                "lower_max" => (format!("Mvr ::= INTEGER ({vname}..MAX)"), "Mvr ::= INTEGER (9..MAX)".to_string()),
+                "size_max" => (format!("Mvr ::= OCTET STRING (SIZE ({vname}..MAX))"), "Mvr ::= OCTET STRING (SIZE (9..MAX))".to_string()),
+                "component_max" => (format!("Mvr ::= SEQUENCE {{ f INTEGER ({vname}..MAX) }}"), "Mvr ::= SEQUENCE { f INTEGER (9..MAX) }".to_string()),
                 "component" => (format!("Mvr ::= SEQUENCE {{ f INTEGER (0..{vname}) }}"), "Mvr ::= SEQUENCE { f INTEGER (0..9) }".to_string()),
                 // a DEFAULT literal of a referenced type whose constraint holds the value reference; here `early` places the
                 // referenced type (not the value) before / after its user
